@@ -76,6 +76,9 @@ def run(chk):
     g7 = sp.Gen(chk.rng, "c07")
     for i in range(15000 if thorough else 700):
         labelled.append(("c07:%d" % i, g7.program()))
+    for i in range(400 if thorough else 25):
+        labelled.append(("scenario-global-in-lets:%d" % i, g7.scenario("global-in-lets")))
+        labelled.append(("scenario-two-nonlocals:%d" % i, g7.scenario("two-nonlocals")))
     g6 = sp.Gen(chk.rng, "c06")
     for i in range(4000 if thorough else 100):
         labelled.append(("c06:%d" % i, g6.program()))
